@@ -122,6 +122,7 @@ type v14Exch struct {
 	Seed        uint64
 	NearLimit   string // "", "req", "resp"
 	ReqWireSize int64
+	OpCap       int
 	handlerBody bool // the response may carry a body (status allows it and the method is not HEAD)
 }
 
@@ -392,8 +393,11 @@ func v14GenConf(rng *rand.Rand, mode, flavor string) *v14Conf {
 // ---------------------------------------------------------------------------------------
 // exchanges
 
-func v14GenExch(rng *rand.Rand, cf *v14Conf, idx, wave int, flavor string, maxBody int64, common *[2][]v14Hdr) *v14Exch {
-	e := &v14Exch{Idx: idx, Wave: wave, Seed: rng.Uint64()}
+// perEx is the exchange's frame budget per direction: it bounds body/window and the number of
+// separate body chunks (the race detector makes every frame expensive: the server starts a
+// goroutine per frame it writes).
+func v14GenExch(rng *rand.Rand, cf *v14Conf, idx, wave int, flavor string, maxBody int64, perEx int, common *[2][]v14Hdr) *v14Exch {
+	e := &v14Exch{Idx: idx, Wave: wave, Seed: rng.Uint64(), OpCap: perEx}
 	switch x := rng.IntN(100); {
 	case x < 28:
 		e.Method = "GET"
@@ -464,7 +468,7 @@ func v14GenExch(rng *rand.Rand, cf *v14Conf, idx, wave int, flavor string, maxBo
 
 	// request body
 	reqMax := maxBody
-	if m := cf.srvStreamWinEff() * 2000; m < reqMax {
+	if m := cf.srvStreamWinEff() * int64(perEx); m < reqMax {
 		reqMax = m
 	}
 	hasBody := false
@@ -612,7 +616,7 @@ func v14GenExch(rng *rand.Rand, cf *v14Conf, idx, wave int, flavor string, maxBo
 	bodyStatus := e.Status != 204 && e.Status != 304
 	e.ExplicitWH = e.Status != 200 || rng.IntN(2) == 0
 	respMax := maxBody
-	if m := cf.cliStreamWinEff() * 2000; m < respMax {
+	if m := cf.cliStreamWinEff() * int64(perEx); m < respMax {
 		respMax = m
 	}
 	if bodyStatus {
